@@ -36,6 +36,8 @@ import Pyunicorn.Model.VisibilityScale
   dtype=FIELD)`, then the float kernels)
 * `faithfulc x t|-` — round 5: `1` iff `FaithfulConv rndF32 x timings` (the stored data are
   order-faithful: then `class_f32_is_exact_on_stored_data` applies)
+* `nouflc x t|- a c` — round 5: `1` iff `noUflConvB x timings a c` (hypotheses of
+  `class_f32_pow2_invariant_decided`)
 -/
 open Pyunicorn Pyunicorn.Proto Pyunicorn.Visibility
 
@@ -121,6 +123,9 @@ def answer (toks : List String) : String :=
   | ["matR", x, t, mis, hor] =>
       showLog (vals x).length (classLogR rndF32 (vals x) (if t == "-" then none else some (rats t))
         (mis == "1") (hor == "1"))
+  | ["nouflc", x, t, a, c] =>
+      if noUflConvB (vals x) (if t == "-" then none else some (rats t)) a.toInt! c.toInt!
+        then "1" else "0"
   | ["faithfulc", x, t] =>
       if decide (FaithfulConv rndF32 (vals x) (if t == "-" then none else some (rats t)))
         then "1" else "0"
